@@ -72,12 +72,11 @@ def ob2_ob3_trace(ck, sim):
         # contract for formatting code: reads its arguments, writes only its own objects -> no effect on simulator state
         def fmt(E_, st, a_): return a_[0] if a_ else None
         E.prefix_stubs = [('_ZN5boost', fmt), ('_ZNK5boost', fmt), ('_ZN5boostls', fmt), ('_ZNSolsE', fmt), ('_ZStls', fmt), ('_ZNSt7__cxx1112basic_string', fmt), ('_ZNKSt7__cxx1112basic_string', fmt)]
-        st = State(); st.pc = list(assume)
-        p = sim.new_proc(st, mem)
+        st = State()
+        st, p = sim.constructed_proc(E, st, mem)        # members this harness does not know hold what the constructor gives them
+        st.pc = list(st.pc) + list(assume)
         for n, v in (('pc', pc), ('areg', a), ('breg', b), ('oreg', o)): sim.setf(E, st, p, n, v)
         for n, v in (('truncateInputs', 1), ('running', 1), ('tracing', tracing), ('exitCode', exit0), ('cycles', cyc), ('maxCycles', cyc)): sim.setf(E, st, p, n, v)
-        OUT = st.alloc(300, 'ostream'); E.store(st, p.add(sim.off['out']), 8, OUT)
-        for k in range(3): E.store(st, p.add(sim.off['debugInfo'] + 8*k), 8, NULL)      # empty symbol table
         rs = E.run('s_run', [p], st)
         for r in rs:
             if r.kind != 'ret':
